@@ -196,7 +196,8 @@ class UMNDirHandler(DirHandler):
 
             # Type.
             if line[0:5] == "Type=":
-                entry.settype(line[5])
+                if len(line) > 5:  # Don't crash on a "Type=" line without a type
+                    entry.settype(line[5])
                 # FIXME: handle if line[6] is + or ?
                 done["type"] = 1
             elif line[0:5] == "Name=":
@@ -222,7 +223,10 @@ class UMNDirHandler(DirHandler):
                 done["host"] = 1
             elif line[0:5] == "Port=":
                 if line[5:] != "+":
-                    entry.setport(int(line[5:]))
+                    try:  # Don't crash if we can't parse the port
+                        entry.setport(int(line[5:]))
+                    except ValueError:
+                        pass
                 done["port"] = 1
             elif line[0:5] == "Numb=":
                 try:  # Don't crash if we can't parse the number
